@@ -619,6 +619,13 @@ func runC08(c *fw.Ctx) {
 		}
 		return string(b)
 	}
+	manyRows := func(lo, hi int) bt.Op {
+		o := bt.Op{Kind: "MutateRows", Table: tblT}
+		for i := lo; i < hi; i++ {
+			o.Entries = append(o.Entries, bt.Entry{Key: []byte(fmt.Sprintf("row%06d", i)), Muts: []bt.Mut{mset("f", "c", 1000, "v")}})
+		}
+		return o
+	}
 	bigPut := func(key string, tag byte, n int) bt.Op {
 		return bt.Op{Kind: "MutateRow", Table: tblT, Key: []byte(key), Muts: []bt.Mut{mset("f", "big", 1000, big(tag, n))}}
 	}
@@ -639,6 +646,10 @@ func runC08(c *fw.Ctx) {
 		{alpha[0], {Kind: "CreateTable", Parent: parentI, TableID: "u", Fams: map[string]*bt.GC{"f": nil}}, alpha[2],
 			{Kind: "ModifyFamilies", Table: parentI + "/tables/u", Mods: []bt.Mod{{ID: "h", Op: "create"}}}},
 		{alpha[0], alpha[2], {Kind: "CreateTable", Parent: parentI, TableID: "a", Fams: map[string]*bt.GC{"f": nil}}},
+		// a table of 10 000 rows dropped as a whole: however the storage removes the rows (the record of the removal spans
+		// several journal blocks), a kill inside the request leaves all rows or none
+		{alpha[0], manyRows(0, 5000), manyRows(5000, 10000), {Kind: "DropRowRange", Table: tblT, All: true}},
+		{alpha[0], manyRows(0, 5000), manyRows(5000, 10000), {Kind: "DropRowRange", Table: tblT, All: true}, alpha[2]},
 	} {
 		item++
 		if !c.Mine(item) {
@@ -680,7 +691,7 @@ func runC08(c *fw.Ctx) {
 					if cl2 == "" {
 						return ""
 					}
-					return "C08:" + cl2 + ":large-row:" + c08Tag(cs)
+					return "C08:" + cl2 + ":extra-program:" + c08Tag(cs)
 				})
 			}
 		}
